@@ -7,6 +7,7 @@
 import DlmsVerif.Gen.Misc
 import DlmsVerif.Model.Security
 import DlmsVerif.Spec.Aes
+import DlmsVerif.Lemmas.Aes
 import DlmsVerif.Lemmas.Security
 
 namespace Props.C05
@@ -208,5 +209,49 @@ example : Spec.Aes.encryptBlock ((List.range 16).map UInt8.ofNat) ((List.range 1
 example : Spec.Aes.encryptBlock ((List.range 32).map UInt8.ofNat) ((List.range 16).map fun i => UInt8.ofNat (17 * i)) =
     [0x8e, 0xa2, 0xb7, 0xca, 0x51, 0x67, 0x45, 0xbf, 0xea, 0xfc, 0x49, 0x90, 0x4b, 0x49, 0x60, 0x89] := by
   decide +kernel
+
+/-! ### the block function of the executable reference is a permutation: AES itself -/
+
+theorem C05_aes_block_length (key block : Bytes) (hk : key.length = 16 ∨ key.length = 32) (hb : block.length = 16) :
+    (Spec.Aes.encryptBlock key block).length = 16 := by
+  have _ := hb  -- not needed: the last step of the cipher produces 16 bytes whatever the block
+  exact Lemmas.Aes.encryptBlock_length key block hk
+
+theorem C05_aes_inverse (key block : Bytes) (hk : key.length = 16 ∨ key.length = 32) (hb : block.length = 16) :
+    Spec.Aes.decryptBlock key (Spec.Aes.encryptBlock key block) = block := by
+  exact Lemmas.Aes.decryptBlock_encryptBlock key block hk hb
+
+/-- key wrap with AES itself: a key wrapped under a key of the suite unwraps to itself. -/
+theorem C05_unwrap_wrap_aes (sc : SC) (kek key w : Bytes)
+    (h : wrapKey P Spec.Aes.encryptBlock sc kek key = .ok w) :
+    unwrapKey P Spec.Aes.decryptBlock sc kek w = .ok key := by
+  -- as C05_unwrap_wrap, with the facts about the block function for the accepted `kek` only
+  unfold wrapKey at h
+  split at h
+  · cases h
+  · rename_i hv
+    simp only [Bool.or_eq_true, Bool.not_eq_true', not_or, Bool.not_eq_false] at hv
+    obtain ⟨hkek, hkey⟩ := hv
+    cases h
+    have hkl : kek.length = 16 ∨ kek.length = 32 := by
+      rcases (C05_key_lengths sc.suite kek).mp hkek with ⟨_, h⟩ | ⟨_, h⟩ | ⟨_, h⟩
+      · exact .inl h
+      · exact .inl h
+      · exact .inr h
+    have hE : ∀ b, (Spec.Aes.encryptBlock kek b).length = 16 :=
+      fun b => Lemmas.Aes.encryptBlock_length kek b hkl
+    have hD : ∀ b, b.length = 16 → Spec.Aes.decryptBlock kek (Spec.Aes.encryptBlock kek b) = b :=
+      fun b hb => C05_aes_inverse kek b hkl hb
+    have hk8 : key.length % 8 = 0 := by
+      rcases (C05_key_lengths sc.suite key).mp hkey with ⟨_, h⟩ | ⟨_, h⟩ | ⟨_, h⟩ <;> rw [h]
+    have hk16 : 16 ≤ key.length := by
+      rcases (C05_key_lengths sc.suite key).mp hkey with ⟨_, h⟩ | ⟨_, h⟩ | ⟨_, h⟩ <;> rw [h] <;> decide
+    have hwl := wrap_length (Spec.Aes.encryptBlock kek) hE key hk8
+    have hu := unwrap_wrap (Spec.Aes.encryptBlock kek) (Spec.Aes.decryptBlock kek) hE hD key hk8
+    have hc : (decide ((Spec.Gcm.wrap (Spec.Aes.encryptBlock kek) key).length < 24) ||
+        (Spec.Gcm.wrap (Spec.Aes.encryptBlock kek) key).length % 8 != 0) = false := by
+      rw [hwl]; simp; omega
+    simp [unwrapKey, hkek, hc, hu, hkey]
+
 
 end Props.C05
